@@ -5,7 +5,7 @@ import math
 import numpy as np
 
 from .ref import econ as R
-from .verdict import close
+from .verdict import close, first_diff
 
 COGEN = (31, 32, 41, 42, 51, 52)
 
@@ -400,7 +400,21 @@ def _c04_addons(mon, s, cfg):
         p_h = heat[t] if eu != 1 else 0.0
         want_p.append(rev + (p_el * ep[t] + p_h * hp[t]) / 1e6 - float(ec.Coam.value))
     mon.seq('addon-cashflow', acf, want_a, rel=1e-9, abs_=1e-9, mechanism='C04/addon-cashflow')
-    mon.seq('addon-cashflow', pcf, want_p, rel=1e-9, abs_=1e-9, mechanism='C04/addon-project-cashflow')
+    mech = 'C04/addon-project-cashflow'
+    if cfg['sdac'] and first_diff(pcf, want_p, 1e-9, 1e-9) is not None:
+        # recognisable signature: the add-on module ran before the S-DAC-GT module took its electricity and heat out of the
+        # energy sold, so its project cash flow is built on the energy before capture consumption
+        sd = s.sdacgteconomics
+        ca = _lst(sd.CarbonExtractedAnnually.value)
+        alt = list(want_p[:cy])
+        for t in range(L):
+            rev = (el if eu != 2 else 0.0) * ep[t] / 1e6 + (ht if eu != 1 else 0.0) * hp[t] / 1e6 + profit - opex
+            p_el = (net[t] + ca[t] * float(sd.elec.value)) if eu != 2 else 0.0
+            p_h = (heat[t] + ca[t] * float(sd.therm.value)) if eu != 1 else 0.0
+            alt.append(rev + (p_el * ep[t] + p_h * hp[t]) / 1e6 - float(ec.Coam.value))
+        if first_diff(pcf, alt, 1e-9, 1e-9) is None:
+            mech = 'C04/addon-project-cashflow-uses-energy-before-S-DAC-GT-consumption'
+    mon.seq('addon-cashflow', pcf, want_p, rel=1e-9, abs_=1e-9, mechanism=mech)
     run = np.cumsum(pcf).tolist()
     mon.seq('addon-cumulative', _lst(ae.ProjectCummCashFlow.value), run, rel=1e-9, abs_=1e-9,
             mechanism='C04/addon-cumulative-not-running-sum')
